@@ -145,14 +145,10 @@ class ContentElement:
     '''Attaches the element to `doc`, or detaches it from its current owning
     `ContentDocument` if `doc` is `None`.'''
 
-    if doc is None:
+    if self.parent() is not None:
+      raise RuntimeError("Element must be removed from parent first")
 
-      # detaching
-
-      if self.parent() is not None:
-        raise RuntimeError("Element must be removed from parent first")
-
-    else:
+    if doc is not None:
 
       # attaching
 
